@@ -1325,6 +1325,16 @@ def np_argmax(eng, v):
     return best
 
 
+@B('np.searchsorted')
+def np_searchsorted(eng, a, v, side='left'):
+    items = a.items if isinstance(a, NVec) else eng.iterate(a)
+    cnt = 0
+    for x in items:
+        c = compare(eng, ast.Lt() if side == 'left' else ast.LtE(), x, v)
+        cnt = cnt + (int(c) if isinstance(c, bool) else z3.If(c, 1, 0))
+    return concretize(cnt) if is_z3(cnt) else cnt
+
+
 @B('np.argmin')
 def np_argmin(eng, v):
     items = v.items if isinstance(v, NVec) else eng.iterate(v)
@@ -1417,7 +1427,7 @@ BUILTINS['print'] = Builtin('print', lambda eng, *a, **k: None)
 BUILTINS['slice'] = Builtin('slice', lambda eng, *a: slice(*a))
 
 _np = {
-    'array': np_array, 'zeros': np_zeros, 'ones': np_ones, 'dot': np_dot, 'argmax': np_argmax, 'argmin': np_argmin, 'sqrt': m_sqrt, 'sum': np_sum,
+    'array': np_array, 'zeros': np_zeros, 'ones': np_ones, 'dot': np_dot, 'argmax': np_argmax, 'argmin': np_argmin, 'searchsorted': np_searchsorted, 'sqrt': m_sqrt, 'sum': np_sum,
     'nan': NAN, 'inf': V.Inf(1), 'float64': b_float, 'abs': b_abs, 'ceil': m_ceil, 'floor': m_floor,
     'pi': None,
 }
